@@ -11,7 +11,7 @@ LEVEL_TEXT = ("Lean 4 theorem fillNp_eq_rows over a transcription of every _nump
               "hypothesis with a kernel-checked negative witness. Tied to /repo by running fill.numpy (unit, scalar, array weights; "
               "whole and split batches; on empty and pre-filled aggregators; numpy record arrays) against the model's fillNp and "
               "against per-row fills, with the theorem's hypotheses evaluated on the model's copy of each batch and byte-wise "
-              "comparison of the input arrays.")
+              "comparison of the input arrays. Also proved: a vectorised fill of an empty tree computes the C02 specification (fillNp_eq_denote), and for a Count with any weight transform both vectorised forms equal per-row fills (CountT); bins of non-representable width, weights close to 1 and trees of transformed Counts are probed at the implementation level.")
 LEVEL_NOTE = ("numpy.unique / average / bincount enter as their contracts; the scalar-weight protocol with unknown batch length is "
               "outside the model (known finding C03-scalar-weight-count-first, excluded region: scalar/unit weights on trees in which a Count is visited before the "
               "first quantity). 'Input arrays unmodified' is a frame condition checked by the harness only.")
